@@ -45,7 +45,21 @@ def _vec_param(draw, ctx, base, max_move):
     base = [_r(b, 4) for b in base]
     if not ctx.dep or max_move <= 0 or not draw(st.integers(0, 99)) < ctx.pdep * 100:
         return const(base)
-    var = draw(st.sampled_from(sorted(ctx.dep)))
+    names = sorted(ctx.dep)
+    if len(names) >= 2 and draw(st.integers(0, 3)) == 0:
+        # one function of TWO variables (partial evaluation with only one of them must leave a
+        # function of the other)
+        va, vb = draw(st.permutations(names))[:2]
+        d = len(base)
+        parts = []
+        for vn in (va, vb):
+            dvn, lon, hin = ctx.dep[vn]
+            sp = max(hin - lon, 1e-9)
+            parts.append([[_r(draw(num(-max_move / 2, max_move / 2)) / (sp * dvn), 4) for _ in range(dvn)] for _ in range(d)])
+        v0 = [_r(base[i] - sum(parts[0][i][j] * ctx.dep[va][1] for j in range(ctx.dep[va][0]))
+                 - sum(parts[1][i][j] * ctx.dep[vb][1] for j in range(ctx.dep[vb][0])), 4) for i in range(d)]
+        return {"k": "affine2", "var": va, "var2": vb, "v0": v0, "V1": parts[0], "V2": parts[1]}
+    var = draw(st.sampled_from(names))
     dv, lo, hi = ctx.dep[var]
     span = max(hi - lo, 1e-9)
     d = len(base)
